@@ -18,7 +18,6 @@ package p2p
 // the nonce counter advances by exactly one per frame (a reused nonce would break the AEAD);
 // the fixed 4-byte prefix is untouched
 //@ func incrementNonce
-//@   requires nonce != nil
 //@   ensures[advance] le64(bytes(nonce[4:12])) == (old(le64(bytes(nonce[4:12]))) == MaxUint64 ? 1 : old(le64(bytes(nonce[4:12]))) + 1)
 
 // ---- C18: packetisation -------------------------------------------------------------------------------------
@@ -36,9 +35,10 @@ package p2p
 
 // all packets of one message are queued under the stream's mutex, so they sit back to back on the
 // topic's queue: queueSend may only be reached with that mutex held (checked at every call site in
-// the repository). This is a sequential lock-discipline obligation; it does not explore schedules.
+// the repository) - except for heartbeat packets, which are whole single-packet messages on their own
+// topic. This is a sequential lock-discipline obligation; it does not explore schedules.
 //@ func (*Stream).queueSend
-//@   requires[locked] mutexHeld(&s.mu)
+//@   requires[locked] mutexHeld(&s.mu) || p.StreamId == heartbeatTopic
 
 // reassembly: over the size limit nothing is delivered and the assembler is emptied; otherwise the
 // packet's bytes are appended; on EOF the assembler is emptied after the message was handed on
